@@ -146,6 +146,9 @@ pub fn stress_menu_b() -> Vec<String> {
     out
 }
 
+/// A header comment of several hundred bytes with 2-, 3- and 4-byte characters.
+pub const LONG_PREAMBLE: &str = "// generated header é€😀 - do not edit\n// ------------------------------------------------------------------------\n// ééééééééééééééééééééééééééééééééééééééééééééééééééééééééééééééééééééééé\n// €€€€€€€€€€€€€€€€€€€€€€€€€€€€€€€€€€€€€€€€€€€€€€€€€€€€€€€€€€€€€€€€€€€€€€€\n";
+
 pub fn seed_workspace(files: &space::Files, name: &str, text: &str, stratum: &'static str) -> WsCase {
     // seeds may include each other: give every workspace the whole seed directory
     if text.contains("include") {
@@ -201,7 +204,8 @@ pub fn for_each_workspace(tier: Tier, ctx: &mut Ctx, mut f: impl FnMut(&mut Ctx,
             let mut root = String::from("include \"b.td\"\n");
             root.push_str(&word.iter().map(|&i| menu[i].as_str()).collect::<Vec<_>>().join("\n"));
             let case = WsCase {
-                files: vec![("/ws/a.td".into(), root), ("/ws/b.td".into(), menu[bi].clone())],
+                // the included file is much longer than its includer: a position that ends up paired with the wrong file falls outside it
+                files: vec![("/ws/a.td".into(), root), ("/ws/b.td".into(), format!("{}{}", LONG_PREAMBLE, menu[bi]))],
                 root: "/ws/a.td".into(),
                 stratum: "stress2",
                 focus: None,
@@ -240,6 +244,18 @@ pub fn for_each_workspace(tier: Tier, ctx: &mut Ctx, mut f: impl FnMut(&mut Ctx,
             if !f(ctx, &WsCase::single(&text, "forward")) {
                 return;
             }
+        }
+    }
+    // 2a''. every operator spelling the server's own lexer accepts, in the operator forms the indexer tells apart
+    for op in crate::c20::names_in_lexer_source() {
+        if !ctx.mine() {
+            continue;
+        }
+        let text = format!(
+            "class A<int a> {{ int f = !{op}(a, 1); }}\ndefvar v = !{op}<int>(\"s\");\ndef d : A<!{op}(1, [2], \"s\")> {{ let f = !{op}(); }}\nforeach i = !{op}([1], 2) in def e#i;"
+        );
+        if !f(ctx, &WsCase::single(&text, "operators")) {
+            return;
         }
     }
     // 2b. diamonds: the root includes b and c, c includes b again; statements follow the includes
